@@ -379,6 +379,18 @@ def q_family(rng, ctx, K, KB, mon):
     return ('Q', layout, u1, u2, uw, dt, vb1.ndim)
 
 
+def reassemble_family(rng, ctx, K, mon):
+    """Q_vec_from_Q_elements / hkl split on components given with their dims in a different order."""
+    n, m = int(rng.integers(2, 6)), int(rng.integers(2, 6))
+    comps = [sc.array(dims=['pixel', 'wavelength'], values=rng.normal(size=(n, m)), unit='1/angstrom') for _ in range(3)]
+    which = int(rng.integers(0, 3))
+    comps[which] = comps[which].transpose().copy()  # same labels, other memory/dim order
+    mon.meta = {'family': 'reassemble', 'transposed_component': 'xyz'[which], 'shape': (n, m)}
+    ctx.hit('component with transposed dims')
+    K.Q_vec_from_Q_elements(Qx=comps[0], Qy=comps[1], Qz=comps[2])
+    return ('reassemble', which, n == m)
+
+
 def hkl_family(rng, ctx, K, mon):
     n = int(rng.integers(1, 30))
     Bv, ub_unit, cdec = gen_b(rng, n, ctx)
@@ -408,7 +420,7 @@ def requirements(tier):
                        'ub_matrix_from_u_and_b': 100, 'hkl_elements_from_hkl_vec': 100, 'family.rotation': 30,
                        'family.norm_vs_scalar_Q': 30, 'family.rescale': 30},
             'forced': ['nearly parallel beams', 'nearly antiparallel beams', 'axis permutation rotation',
-                       'cond(B) >= 1e5']}
+                       'cond(B) >= 1e5', 'component with transposed dims']}
 
 
 def run(shard, ctx):
@@ -433,6 +445,11 @@ def run(shard, ctx):
             ctx.case(sig)
             if i < 2:
                 ctx.sample({'signature': sig, **mon.meta})
+        for i in range(max(4, shard['q'] // 4)):
+            try:
+                ctx.case(reassemble_family(rng, ctx, K, mon))
+            except Exception as e:  # noqa: BLE001
+                ctx.violation('raised_outer', f'{type(e).__name__}: {e}', dict(mon.meta))
         for i in range(shard['hkl']):
             try:
                 sig = hkl_family(rng, ctx, K, mon)
